@@ -24,7 +24,7 @@ def spaces(tier, seed):
     sp = []
     if tier == 'quick':
         sp.append(('n4-orders012', dict(n=4, orders=(0, 1, 2), names='AB', relabel=('id', 'offset', 'revins'))))
-        sp.append(('n4-orders1234', dict(n=4, orders=(1, 3, 4), names='A', relabel=('id',))))
+        sp.append(('n4-orders1234', dict(n=4, orders=(1, 3, 4), names='A', relabel=('id', 'strings'))))
         sp.append(('n5-orders12', dict(n=5, orders=(1, 2), names='ABCDE', relabel=('id', 'revins'), max_nonsingle=2)))
     else:
         sp.append(('n4-orders01234', dict(n=4, orders=(0, 1, 2, 3, 4), names='AB', relabel=('id', 'offset', 'revins'))))
@@ -102,7 +102,7 @@ def name_assignments(n, names):
 
 def build(n, edges, names, relabel):
     """the input graph of one case"""
-    keymap = {'id': lambda i: i, 'offset': lambda i: 10 + 3 * i, 'revins': lambda i: i}[relabel]
+    keymap = {'id': lambda i: i, 'offset': lambda i: 10 + 3 * i, 'revins': lambda i: i, 'strings': lambda i: 'n%d' % i}[relabel]
     g = nx.Graph()
     order = range(n - 1, -1, -1) if relabel == 'revins' else range(n)
     for i in order:
